@@ -408,6 +408,56 @@ def intrinsics(ctx: Ctx, py: PyProgram, rs: RustProgram) -> None:
                 ctx.violation("C04.6/intrinsic-effects", key_of(rel, pyfn, "halted"), f"{pyfn}: Python halted={st.halted}, Rust power calls {rs_power}", rel)
         ctx.sample({"intrinsic": pyfn, "python_writes": {hex(a - base): [show_bit(b) for b in v.bits[:8]] for a, v in pyw.items()}})
     ctx.instance("C04.6/intrinsic-effects", "HALT/OFF/RESET: bit provenance of every internal register byte written, Python vs Rust", n, 11)
+    # the same writes against the README's "System Initialization and Data Retainment" table (the documentation of record)
+    tab = mdfacts.table_under(mdfacts.tables(), "Data Retainment")
+    row = next((r_ for r_ in tab.rows if r_ and "internal memory" in r_[0].lower()), None)
+    ctx.need(row is not None, "README retainment table: 'Internal memory' row not found")
+    nd = 0
+    for col, pyfn in ((tab.col("HALT"), "eval_intrinsic_halt"), (tab.col("OFF"), "eval_intrinsic_off"), (tab.col("RESET"), "eval_intrinsic_reset")):
+        want: dict[int, list[int]] = {}      # internal offset -> [clear mask, set mask]
+        for sent in re.split(r"<br>|\.\s", row[col]):
+            m_kind = re.search(r"(are|is)\s+(all\s+)?(reset|set)\b", sent)
+            if not m_kind:
+                continue
+            kind = m_kind.group(3)
+            for m_ in re.finditer(r"([A-Z]{2,4})\s*\(([0-9A-F]{2})H\)(?:\s*bits?\s*([0-9][0-9 toand/,]*))?", sent[:m_kind.start()]):
+                off = int(m_.group(2), 16)
+                bits = m_.group(3)
+                mask = 0xFF
+                if bits:
+                    mask = 0
+                    for part in re.split(r"/|,|and", bits):
+                        part = part.strip()
+                        if not part:
+                            continue
+                        rng = re.match(r"(\d)\s*to\s*(\d)", part)
+                        if rng:
+                            for b_ in range(int(rng.group(1)), int(rng.group(2)) + 1):
+                                mask |= 1 << b_
+                        elif part.isdigit():
+                            mask |= 1 << int(part)
+                want.setdefault(off, [0, 0])[0 if kind == "reset" else 1] |= mask
+        ctx.need(len(want) >= 2, f"README retainment cell for {pyfn} not understood: {row[col][:80]}")
+        mem, regs_, st_ = _Mem(), _Regs(), _State()
+        ev = AbsEval(py, mod, {}, [500000])
+        try:
+            ev.call(ev.name(pyfn), [None, None, regs_, mem, st_, None, None], {})
+        except (Raised, Unknown):
+            continue        # reported above
+        base = 0x100000
+        got = {a - base: v for a, v in mem.writes.items() if a >= base}
+        for off in sorted(set(want) | set(got)):
+            nd += 1
+            clr, setm = want.get(off, [0, 0])
+            v = got.get(off)
+            for b_ in range(8):
+                doc = "0" if (clr >> b_) & 1 else "1" if (setm >> b_) & 1 else "retained"
+                bit = v.bits[b_] if v is not None else None
+                act = "retained" if v is None or (isinstance(bit, tuple) and len(bit) == 3 and bit[1] == b_ and not bit[2]) else ("0" if bit == 0 else "1" if bit == 1 else "other")
+                if doc != act:
+                    ctx.violation("C04.6/intrinsic-doc", key_of(rel, pyfn, f"IMEM 0x{off:02X} bit {b_}: README says {doc}"),
+                                  f"{pyfn}: internal register 0x{off:02X} bit {b_} is {act} by the implementation, the README's HALT/OFF/RESET table says {doc}", f"{rel} vs {mdfacts.README}:{tab.line}")
+    ctx.instance("C04.6/intrinsic-doc", "HALT/OFF/RESET internal-register bits: README retainment table vs the Python intrinsics (bit provenance)", nd, 8)
 
 
 # ---------------------------------------------------------------------------
